@@ -153,6 +153,31 @@ def gen_adversarial(rng, tr):
     return dict(tr=tr, mr=mr, ev=ev, stream="adversarial")
 
 
+BACKLOGS = [0, 1, 63, 64, 65, 128, 200]
+
+
+def gen_backlog(tr, n, kind, tmo, extra):
+    """N unconsumed frames queued on the connection, then the peer closes / resets it; reads until the end surfaces"""
+    frames = [LS.data_frames(tr, REQ, [LW.final(i % 8)])[-1] for i in range(n)]
+    ev = [T(13)]
+    if frames:
+        ev += [D(b"".join(frames)), T(33)]
+    ev += [f"X:{kind}", T(70)]
+    ev += [f"Q:{'none' if tmo is None else tmo}"] * (n + extra)
+    ev += [T(123)]
+    return dict(tr=tr, mr=1, ev=ev, stream="backlog", backlog=n)
+
+
+def gen_backlogs():
+    out = []
+    for tr in ("hsfz", "doip", "tcp-lines"):
+        for n in BACKLOGS:
+            for kind in ("eof", "reset"):
+                for tmo in (None, 500):
+                    out.append(gen_backlog(tr, n, kind, tmo, 2))
+    return out
+
+
 def model_line(case):
     return f"S {case['tr']} {case['mr']} " + " ".join(case["ev"])
 
@@ -188,6 +213,8 @@ def canon_model(line: str):
             t = ":".join(["req", "illegal"] + p[3:])
         if t.startswith("req:blocked"):
             t = "req:blocked"
+        if t.startswith("rd:blocked"):
+            t = "rd:blocked"
         out.append(t)
     return " ".join(out), ties
 
@@ -196,7 +223,7 @@ def calls_of(case, obs: str):
     """pair the client events of the list with the observation tokens"""
     toks = obs.split(" ")
     toks = toks[: toks.index("wire")] if "wire" in toks else toks
-    cl = [e for e in case["ev"] if e[0] in "RCK"]
+    cl = [e for e in case["ev"] if e[0] in "RCKQ"]
     return list(zip(cl, toks))
 
 
@@ -215,6 +242,16 @@ def spec_check(case, obs: str):
             tmo = ev.split(":")[2]
             if tmo != "none":
                 v.append(("blocks-forever", f"request(timeout={tmo} ms) never returns"))
+        if p[0] == "rd" and p[1] in ("blocked", "spin"):
+            # a transport read may wait for ever only for a peer that is silent on an open connection, without caller timeout
+            i = case["ev"].index(ev) if ev in case["ev"] else 0
+            cut_before = [e for e in case["ev"] if e.startswith("X:")]
+            tmo = ev.split(":")[1]
+            if tmo != "none" or (cut_before and cut_before[0] in ("X:eof", "X:reset") and case["stream"] == "backlog"):
+                v.append(("blocks-forever", f"transport.read(timeout={tmo}) never returns although the peer "
+                                            f"{'closed / reset the connection' if tmo == 'none' else 'is bounded by the caller timeout'}"))
+        if p[0] == "rd" and p[1].startswith("exc"):
+            v.append(("unexpected-exception", f"read() ended with {tok}"))
         if p[0] == "rc" and p[1] in ("blocked", "spin"):
             v.append(("blocks-forever", "reconnect() never returns"))
         if p[0] == "req" and p[1] == "reply":
